@@ -19,6 +19,8 @@ var c04R7Exceptions = []boundsException{
 		"same precondition: read only when b[i+1] == '.', and an element of a valid path is neither \".\" nor empty, so a second byte follows"},
 	{"compiler.cleanPath#$1[$2 + 4:]",
 		"same precondition: under b[i+1] == '.' && b[i+2] == '.', the element is not \"..\" (fs.ValidPath rejects it), so at least one more byte follows and i+4 ≤ len(b)"},
+	{"compiler.(*typechecker).errTypeAssertion#$1[$2]",
+		"have is the String() of a method's func type, \"func(T, …) …\": it always contains ')', so strings.IndexAny(have, \" )\") is a valid index (never -1)"},
 	{"compiler.complexConst.String#$1[0]",
 		"im is the String() of a numeric constant (int64Const, intConst, float64Const, floatConst, ratConst): strconv / math/big formatting never returns the empty string"},
 	{"compiler.complexConst.shortString#$1[0]",
